@@ -41,8 +41,8 @@ theorem noOversub_of_wf {e : Emu} (h : WF e) : NoOversub e.phys (absOf e.threads
   rw [runCount_absOf]
   exact (h.cpu g c hc).phys hv
 
-/-- what never changes: the hierarchy, identities, enabled models, and the contents of the
-    model channels (OH* / OA* events do not touch them) -/
+/-- what never changes: the hierarchy, identities, enabled models, run-time channel groups, and the
+    contents of the model channels (OH* / OA* events do not touch them) -/
 def Cpu.static (c : Cpu) : Nat × Nat × Int × Bool := (c.gindex, c.loom, c.index, c.virt)
 def Thread.static (t : Thread) : Nat × Int × Int × Nat × Bool × List (Nat × List (List Value)) :=
   (t.gindex, t.tid, t.pid, t.loom, t.outOfCpu, t.mch.map (fun x => (x.1, x.2.map Chan.vals)))
@@ -52,11 +52,13 @@ structure SameStatic (e e' : Emu) : Prop where
   threads : e'.threads.map Thread.static = e.threads.map Thread.static
   enabled : e'.enabled = e.enabled
   lint : e'.lint = e.lint
+  extra : e'.extra = e.extra
 
-theorem SameStatic.refl (e : Emu) : SameStatic e e := ⟨rfl, rfl, rfl, rfl⟩
+theorem SameStatic.refl (e : Emu) : SameStatic e e := ⟨rfl, rfl, rfl, rfl, rfl⟩
 
 theorem SameStatic.trans {a b c : Emu} (h1 : SameStatic a b) (h2 : SameStatic b c) : SameStatic a c :=
-  ⟨h2.cpus.trans h1.cpus, h2.threads.trans h1.threads, h2.enabled.trans h1.enabled, h2.lint.trans h1.lint⟩
+  ⟨h2.cpus.trans h1.cpus, h2.threads.trans h1.threads, h2.enabled.trans h1.enabled, h2.lint.trans h1.lint,
+    h2.extra.trans h1.extra⟩
 
 theorem Chan.flush_vals (c : Chan) : c.flush.vals = c.vals := by
   unfold Chan.flush; split <;> rfl
@@ -74,7 +76,7 @@ theorem Thread.flush_static (t : Thread) : t.flush.static = t.static := by
 
 theorem SameStatic.flushAll (e : Emu) : SameStatic e e.flushAll := by
   rw [Emu.flushAll_eq]
-  refine ⟨?_, ?_, rfl, rfl⟩
+  refine ⟨?_, ?_, rfl, rfl, rfl⟩
   · show (e.cpus.map Cpu.flush).map Cpu.static = _
     rw [List.map_map]; rfl
   · show (e.threads.map Thread.flush).map Thread.static = _
@@ -87,7 +89,7 @@ theorem SameStatic.flushAll (e : Emu) : SameStatic e e.flushAll := by
 theorem SameStatic.of_step {e : Emu} {ti : Nat} {t t' : Thread} (ht : e.threads[ti]? = some t)
     (hs : t'.static = t.static) (cpus' : List Cpu) (hc : cpus'.map Cpu.static = e.cpus.map Cpu.static) :
     SameStatic e ({ e with threads := e.threads.set ti t', cpus := cpus' } : Emu) := by
-  refine ⟨hc, ?_, rfl, rfl⟩
+  refine ⟨hc, ?_, rfl, rfl, rfl⟩
   show (e.threads.set ti t').map Thread.static = _
   rw [List.map_set, hs]
   apply List.ext_getElem?
@@ -749,7 +751,7 @@ theorem SameStatic.thread {e e' : Emu} (h : SameStatic e e') {ti : Nat} {t' : Th
   | some t => rw [hb] at h1; exact ⟨t, rfl, by simpa using h1.symm⟩
 
 theorem SameStatic.symm {e e' : Emu} (h : SameStatic e e') : SameStatic e' e :=
-  ⟨h.cpus.symm, h.threads.symm, h.enabled.symm, h.lint.symm⟩
+  ⟨h.cpus.symm, h.threads.symm, h.enabled.symm, h.lint.symm, h.extra.symm⟩
 
 theorem static_loom {t t' : Thread} (h : t'.static = t.static) : t'.loom = t.loom := by
   have : t'.static.2.2.2.1 = t.static.2.2.2.1 := by rw [h]
